@@ -65,6 +65,7 @@ class Contract:
     holds: List[tuple] = field(default_factory=list)   # (var, decl_regex, until_regex, oid, tags, src)
     callsites: List[tuple] = field(default_factory=list)  # (call_regex, oid, tags): this fn is the only caller
     mustcall: List[tuple] = field(default_factory=list)   # (call_regex, oid, tags): called unconditionally (top block of the body)
+    contains: List[tuple] = field(default_factory=list)   # (regex, oid, tags): the body still contains the call
     ghost: str = ''                 # ghost members appended inside the item body (struct/impl/trait)
     stub: bool = False
     after: str = ''                 # ghost items emitted right after the item
@@ -198,6 +199,11 @@ def parse_file(path: str) -> List[Contract]:
             if not mm:
                 raise ContractError('%s: @mustcall /call-regex/ <id> [tags]' % where)
             cur.mustcall.append((mm.group(1), mm.group(2), mm.group(3).split()))
+        elif d == 'contains':
+            mm = re.match(r'/(.*)/\s+(\S+)\s+\[([^\]]*)\]\s*$', arg)
+            if not mm:
+                raise ContractError('%s: @contains /call-regex/ <id> [tags]' % where)
+            cur.contains.append((mm.group(1), mm.group(2), mm.group(3).split()))
         elif d == 'onlycaller':
             mm = re.match(r'/(.*)/\s+(\S+)\s+\[([^\]]*)\]\s*$', arg)
             if not mm:
